@@ -342,3 +342,60 @@ Proof.
   specialize (G (Z.to_nat n) ltac:(lia)).
   unfold dot_sum, zsum in *. rewrite <- zrange_to_nat in G. exact G.
 Qed.
+
+(* ------------------------------------------------------------------ loops with a result state *)
+(* invariant rule for the in-place update loops `for i in 0..n { ... }` *)
+Lemma fold_left_result_inv {S} (step : S -> Z -> result S) (Inv : nat -> S -> Prop) n s0 :
+  Inv O s0 ->
+  (forall k s, (k < n)%nat -> Inv k s -> exists s', step s (Z.of_nat k) = Ok s' /\ Inv (Datatypes.S k) s') ->
+  exists s, fold_left (fun acc i => let* s := acc in step s i) (zrange (Z.of_nat n)) (Ok s0) = Ok s
+            /\ Inv n s.
+Proof.
+  intros H0 Hs. induction n as [|n IH].
+  - exists s0. split; [reflexivity|exact H0].
+  - destruct IH as (s & E & Hi); [intros; apply Hs; auto; lia|].
+    destruct (Hs n s ltac:(lia) Hi) as (s' & E' & Hi').
+    exists s'. split; [|exact Hi'].
+    rewrite zrange_of_nat_S, fold_left_app, E. cbn [fold_left bind]. exact E'.
+Qed.
+
+Lemma nth_repeat_0 n i : nth i (repeat 0 n) 0 = 0.
+Proof. revert i; induction n; intros [|i]; cbn; auto. Qed.
+
+(* ------------------------------------------------------------------ enumeration of a shape *)
+Lemma zrange_mul_flat d P : 0 <= d -> 0 <= P ->
+  flat_map (fun x => map (fun q => x * P + q) (zrange P)) (zrange d) = zrange (d * P).
+Proof.
+  intros Hd HP. rewrite <- (Z2Nat.id d) by lia. generalize (Z.to_nat d). intros k.
+  induction k as [|k IH]; [reflexivity|].
+  rewrite zrange_of_nat_S, flat_map_app, IH. cbn [flat_map]. rewrite app_nil_r.
+  rewrite Nat2Z.inj_succ. unfold Z.succ. rewrite Z.mul_add_distr_r, Z.mul_1_l.
+  rewrite zrange_app by nia. reflexivity.
+Qed.
+
+Lemma all_indices_flat_pos sh : valid_shape sh ->
+  map (fun idx => flat_pos idx sh) (all_indices sh) = zrange (prod_list sh).
+Proof.
+  induction 1 as [|d sh Hd Hv IH]; [reflexivity|].
+  cbn [all_indices]. rewrite prod_list_cons. pose proof (prod_list_pos sh Hv).
+  rewrite <- zrange_mul_flat by lia.
+  rewrite flat_map_concat_map, concat_map, map_map, <- flat_map_concat_map.
+  apply flat_map_ext. intros x. rewrite map_map. cbn [flat_pos]. rewrite <- IH, map_map. reflexivity.
+Qed.
+
+Lemma all_indices_in_shape sh : valid_shape sh -> Forall (fun idx => in_shape idx sh) (all_indices sh).
+Proof.
+  induction 1 as [|d sh Hd Hv IH]; cbn [all_indices]; [repeat constructor|].
+  apply Forall_forall. intros idx Hin. apply in_flat_map in Hin as (x & Hx & Hin).
+  apply in_map_iff in Hin as (r & <- & Hr). apply In_zrange in Hx.
+  constructor; [lia|]. rewrite Forall_forall in IH. auto.
+Qed.
+
+(* a sum over positions is a sum over multi-indices *)
+Lemma zsum_over_indices f sh : valid_shape sh ->
+  zsum f (prod_list sh) = list_sum_z (map (fun idx => f (flat_pos idx sh)) (all_indices sh)).
+Proof. intros Hv. unfold zsum. rewrite <- all_indices_flat_pos by auto. now rewrite map_map. Qed.
+
+Lemma list_sum_z_map_ext {A} (f g : A -> Z) l :
+  (forall x, In x l -> f x = g x) -> list_sum_z (map f l) = list_sum_z (map g l).
+Proof. intros H. f_equal. now apply map_ext_in. Qed.
